@@ -16,6 +16,7 @@ from pyvc.heap import (HeapExec, HPath, LoopSpec, Ref, NONE, XR, Act, cls_of, Se
 from pyvc.hlib import init_heap, emit, frame_goal
 from pyvc.solve import Obl, static, undecided
 from pyvc.runner import main
+from pyvc.source import NotFound
 from contracts import wiring as W
 
 W_N = "contracts.wiring_native"
@@ -198,7 +199,7 @@ def build(run):
         ok = lookup_ok and len(table) == 6 and all(op == MEANING.get(sym) for m, sym, op in table) and sorted(sym for _, sym, _ in table) == sorted(MEANING)
         run.add(static("activation.Threshold.Comparator/table", ok, f"members {table}; operator property looks the member's value up in the table: {lookup_ok}",
                        fn="activation.Threshold.Comparator", meta={"replay": {"module": W_N, "func": "replay_activation", "kwargs": {"method": "Threshold"}, "vars": {}}}))
-    except KeyError as ex_:
+    except NotFound as ex_:
         run.add(static("activation.Threshold.Comparator/table", False, f"not found: {ex_}"))
     for cls in METHODS:
         fq = f"activation.{cls}.activate"
@@ -207,7 +208,7 @@ def build(run):
         except Unsupported as ex_:
             run.add(undecided(f"{fq}/subset", f"outside the verified subset: {ex_}", fn=fq,
                               meta={"replay": {"module": W_N, "func": "replay_activation", "kwargs": {"method": cls}, "vars": {}}}))
-        except KeyError as ex_:
+        except NotFound as ex_:
             run.add(static(f"{fq}/exists", False, f"function under contract not found: {ex_}", fn=fq))
 
 
